@@ -777,6 +777,11 @@ def header_index(prog, rep):
             n += 1
             gs = [(op, L, R) for cond, truth in f.edge_conds(e) for op, L, R, _, _ in cond_atoms(cond, truth)]
             ok = any(op == "<" and L == ix and R == cnt for op, L, R in gs)
+            if not ok and any(op == "!=" and L == ix and R == cnt for op, L, R in gs) and ix[0] == "v":
+                # i != n bounds i below n when i only ever starts at 0 and moves up by one, and n is not changed meanwhile
+                wr = [x for x in f.all_elems() if (x.is_assign or x.is_incdec) and norm(x.kid(0)) == ix]
+                wn = [x for x in f.all_elems() if (x.is_assign or x.is_incdec) and norm(x.kid(0)) == cnt]
+                ok = bool(wr) and not wn and all((x.is_assign and x.op == "=" and norm(x.kid(1)) == ("c", 0)) or (x.is_incdec and x.op in ("post++", "pre++")) for x in wr)
             rep.check(ok, "W9-index", "%s in %s: the index is below the array's count" % (e.text[:36], f.name), e.where,
                       "no controlling test `%s < %s` (conditions here: %s)" % (show(ix), show(cnt), [(op, show(L), show(R)) for op, L, R in gs if L == ix][:4]),
                       function=f.name, construct="header-index")
@@ -963,9 +968,26 @@ def eol_scan(prog, rep):
                     other = [norm(x) for x in (a0, a1) if x is not None and (x.strip() is None or x.strip().strv is None)]
                     if strs == [b"\r\n"] and a2 is not None and norm(a2) == ("c", 2) and other and other[0] in (("&", ("[]", buf, v)), ("+", buf, v), ("+", v, buf)):
                         ok = True
-        cr = any(op == "==" and l in (show(("[]", buf, v)),) and r_ in ("13",) for op, l, r_ in seen)
-        lf = any(op == "==" and r_ == "10" and "+ 1" in l for op, l, r_ in seen)
-        rep.check(ok or (cr and lf), "W7-eol", "findeol answers `%s` only where CR LF was found" % r.text[:24], r.where,
+        # the byte-wise forms: the byte at the answered position is CR (compared, or found by memchr(.., '\r', ..)) and the next is LF
+        raw = [(op, L, R, (Le.strip() if Le is not None else None)) for cond, truth in f.edge_conds(r) for op, L, R, Le, _ in cond_atoms(cond, truth)]
+        lfs = [L for op, L, R, _ in raw if op == "==" and R == ("c", 10) and L[0] == "[]"]
+        crlf = False
+        for L in lfs:
+            base, ix = L[1], L[2]
+            if ix == ("c", 1):
+                # X[1] == LF with X[0] == CR, or X the non-NULL answer of memchr(.., CR, ..)
+                cr_cmp = any(op == "==" and R == ("c", 13) and Lx in (("[]", base, ("c", 0)), ("*", base)) for op, Lx, R, _ in raw)
+                cr_chr = any(op == "!=" and R == ("c", 0) and Lx == base and any(
+                    e.is_assign and norm(e.kid(0)) == base and e.kid(1) is not None and e.kid(1).strip() is not None and e.kid(1).strip().cls == "CallExpr" and
+                    e.kid(1).strip().callee == "memchr" and e.kid(1).strip().arg(1) is not None and norm(e.kid(1).strip().arg(1)) == ("c", 13) for e in f.all_elems())
+                    for op, Lx, R, _ in raw)
+                if (cr_cmp or cr_chr) and any(t == base for t in subterms(v)):
+                    crlf = True
+            elif ix[0] == "+" and ("c", 1) in ix[1:]:
+                i0 = [x for x in ix[1:] if x != ("c", 1)]
+                if i0 and any(op == "==" and R == ("c", 13) and Lx == ("[]", base, i0[0]) for op, Lx, R, _ in raw) and v == i0[0] and base == buf:
+                    crlf = True
+        rep.check(ok or crlf, "W7-eol", "findeol answers `%s` only where CR LF was found" % r.text[:24], r.where,
                   "conditions on this return: %s" % seen[:5], function=f.name, construct="eol-found")
 
 # ---------------------------------------------------------------------------
